@@ -192,7 +192,9 @@ def run(ctx):
             if f.endswith(".json"):
                 corpus.append(json.load(open(os.path.join(cdir, f))))
     cases = corpus + [G.gen_case(ctx.rng, quick) for _ in range(n_cases)]
+    ctx.log("built; running the implementation on %d cases" % len(cases))
     results = run_impl_cases(cases, timeout=1500)
+    ctx.log("implementation done; oracle + encoding")
 
     # ---- oracle on every case (the search for a concrete failing input)
     failures = []
@@ -238,6 +240,7 @@ def run(ctx):
 
     # ---- kernel-checked correspondence
     bad = []
+    ctx.log("oracle: %d failing case(s); correspondence on %d terms" % (len(failures), len(terms)))
     if b["model_ok"]:
         bad = ctx.run_cases("prepare", HEADER, terms, "check_case", case_type="(cfg * input * list obs)",
                             shard=200 if quick else 400, timeout=900)
